@@ -145,7 +145,6 @@ package cmd
 //@                     && points2[fcount(row(points), points.off, i, from, until)] == points[i]
 
 // ---------------------------------------------------------------- commands fail loudly (C16)
-
 //@ func withTextOutWriter
 //@   props C16
 //@   modifies ghost(nopen, 0), ghost(nlocked, 0)
@@ -731,4 +730,3 @@ package cmd
 //@   requires c != nil
 //@   modifies ghost(nopen, 0), ghost(nlocked, 0), rows(Point), c.ArchiveInfoList[0:len(c.ArchiveInfoList)]
 //@   check delegates: called(withTextOutWriter) && result == callret(withTextOutWriter, 0)
-
